@@ -287,6 +287,39 @@ Theorem C03_no_session_with_stranger : forall (d : dev) (evs : list ev),
 Proof. exact no_session_with_stranger. Qed.
 Print Assumptions C03_no_session_with_stranger.
 
+(* Restarts keep the configuration: after ANY sequence of events -- including
+   Down/Up cycles, which stop and start every peer (Handshake.Clear), and cookie
+   replies -- the preshared key, remote static key and static-static secret a
+   peer's handshake functions use are the configured ones.  So the keypair
+   invariant above, and with it psk_mismatch_no_session, speak about the
+   CONFIGURED preshared key also after restarts. *)
+Theorem C03_restart_keeps_psk_and_identity : forall (d : dev) (evs : list ev) (k : kid),
+  NoDup (ids d) -> view (final dev_step d evs) k = view d k.
+Proof. exact restart_keeps_psk_and_identity. Qed.
+Print Assumptions C03_restart_keeps_psk_and_identity.
+
+Theorem C03_psk_is_configured : forall (d : dev) (evs : list ev) (p : peer),
+  NoDup (ids d) -> In p (d_peers (final dev_step d evs)) ->
+  exists p0, In p0 (d_peers d) /\ p_id p0 = p_id p /\ psk (p_hs p) = psk (p_hs p0) /\
+             rstatic (p_hs p) = rstatic (p_hs p0) /\ ss (p_hs p) = ss (p_hs p0).
+Proof. exact psk_is_configured. Qed.
+Print Assumptions C03_psk_is_configured.
+
+(* "absent a cookie": a cookie reply that does not authenticate under
+   Hash("cookie--" || S_peer) with the last MAC1 sent as associated data leaves
+   the device unchanged; MAC2 of later messages stays zero *)
+Theorem C03_unauthentic_cookie_reply_ignored : forall d receiver nonce c,
+  (forall p m1, find_any_index (d_peers d) receiver = Some p -> p_lastmac1 p = Some m1 ->
+                aead_open (cookie_key (TPub (p_id p))) nonce c m1 = None) ->
+  dev_step d (ECookie receiver nonce c) = (d, []).
+Proof.
+  intros d receiver nonce c H. cbn [dev_step].
+  destruct (find_any_index (d_peers d) receiver) as [p|] eqn:E; [|reflexivity].
+  destruct (p_lastmac1 p) as [m1|] eqn:E1; [|reflexivity].
+  now rewrite (H p m1 eq_refl E1).
+Qed.
+Print Assumptions C03_unauthentic_cookie_reply_ignored.
+
 (* ---- non-vacuity ------------------------------------------------------------ *)
 
 (* device 1 with peers 2 (psk 7) and 3 (no psk): peer 2 initiates, the device
@@ -294,8 +327,8 @@ Print Assumptions C03_no_session_with_stranger.
    TUN packet goes out under the mirrored key; a stranger (4) is ignored. *)
 Definition ex_dev : dev :=
   {| d_static := 1%nat;
-     d_peers := [{| p_id := 2%nat; p_hs := new_handshake (Some 1%nat) 2%nat (psk_term 7); p_kp := no_slots; p_staged := 0 |};
-                 {| p_id := 3%nat; p_hs := new_handshake (Some 1%nat) 3%nat (psk_term 0); p_kp := no_slots; p_staged := 0 |}] |}.
+     d_peers := [new_peer 2%nat (new_handshake (Some 1%nat) 2%nat (psk_term 7));
+                 new_peer 3%nat (new_handshake (Some 1%nat) 3%nat (psk_term 0))] |}.
 
 Example C03_nonvacuous_responder :
   match Paper.initiation 2%nat 20%nat (TPub 1%nat) 5 1000 with
@@ -366,3 +399,56 @@ Proof. vm_compute. repeat split; reflexivity. Qed.
 
 Example C03_nonvacuous_dev_ok : dev_ok ex_dev.
 Proof. exact (fresh_dev_ok 1%nat [(2%nat, psk_term 7); (3%nat, psk_term 0)]). Qed.
+
+(* peer 2 (psk 7) completes a handshake, the device is restarted, then: a party with
+   peer 2's static key but psk 8 (or none) is still refused, the right psk completes *)
+Example C03_nonvacuous_restart :
+  match Paper.initiation 2%nat 20%nat (TPub 1%nat) 5 1000 with
+  | Some (_, m1) =>
+    let d1 := fst (dev_step ex_dev (EInit m1 30%nat 2000)) in
+    let d2 := fst (dev_step d1 ERestart) in
+    match Paper.initiation 2%nat 21%nat (TPub 1%nat) 6 1001 with
+    | Some (s1, m2) =>
+      match dev_step d2 (EInit m2 31%nat 2001) with
+      | (_, [OResp 2%nat r]) =>
+          match Paper.consume_response 2%nat 21%nat s1 (psk_term 7) r,
+                Paper.consume_response 2%nat 21%nat s1 (psk_term 0) r,
+                Paper.consume_response 2%nat 21%nat s1 (psk_term 8) r with
+          | Some _, None, None => true
+          | _, _, _ => false
+          end
+      | _ => false
+      end
+    | None => false
+    end
+  | None => false
+  end = true.
+Proof. vm_compute. reflexivity. Qed.
+
+(* a forged cookie reply (right index, wrong key) changes nothing: the retransmitted
+   initiation has MAC2 zero; an authentic one makes MAC2 = Mac(cookie, ...) *)
+Example C03_nonvacuous_cookie :
+  match dev_step ex_dev (EKick 3%nat 40%nat 9 3000) with
+  | (d1, [OInit 3%nat m1]) =>
+    let forged := TAead (cookie_key (TPub 4%nat)) 1 (TC 100) (i_mac1 m1) in
+    let genuine := TAead (cookie_key (TPub 3%nat)) 2 (TC 101) (i_mac1 m1) in
+    match dev_step d1 (ECookie 3000 1 forged) with
+    | (d2, []) =>
+      match dev_step d2 (EKick 3%nat 41%nat 10 3001) with
+      | (d3, [OInit 3%nat m2]) =>
+        is_zero (i_mac2 m2) &&
+        match dev_step d3 (ECookie 3001 2 (TAead (cookie_key (TPub 3%nat)) 2 (TC 101) (i_mac1 m2))) with
+        | (d4, []) =>
+          match dev_step d4 (EKick 3%nat 42%nat 11 3002) with
+          | (_, [OInit 3%nat m3]) => teqb (i_mac2 m3) (TMac (TC 101) (TPair (init_body m3) (i_mac1 m3)))
+          | _ => false
+          end
+        | _ => false
+        end
+      | _ => false
+      end
+    | _ => false
+    end
+  | _ => false
+  end = true.
+Proof. vm_compute. reflexivity. Qed.
